@@ -9,6 +9,7 @@ mod exec;
 mod kernel;
 mod kops;
 mod ops;
+mod orch;
 mod report;
 mod run;
 mod scenarios;
@@ -60,8 +61,54 @@ fn main() {
             }
             println!("done, {bad} problems");
         }
+        Some("worker") => orch::worker(&args[2..]),
+        Some("tape-run") => {
+            let scenario = &args[2];
+            let t: Vec<u32> = args
+                .get(3)
+                .map(|s| s.split(',').filter_map(|x| x.parse().ok()).collect())
+                .unwrap_or_default();
+            let log = args.iter().any(|a| a == "--log");
+            orch::tape_run(scenario, t, log);
+        }
+        Some("dump-tape") => {
+            let scenario = &args[2];
+            let seed: u64 = args[3].parse().unwrap();
+            let index: u64 = args[4].parse().unwrap();
+            // The tape is needed even if the run crashes: record draws as we go.
+            tape::set_echo(true);
+            let o = run::run(scenario, run::Mode::Seed(tape::mix(seed, scenario, index)), false);
+            let t: Vec<String> = o.tape.iter().map(|d| d.2.to_string()).collect();
+            println!();
+            println!("TAPE {}", t.join(","));
+        }
+        Some("replay") => {
+            let path = args.get(2).expect("replay file");
+            let Some(r) = orch::read_replay(path) else {
+                eprintln!("cannot read replay file {path}");
+                std::process::exit(2);
+            };
+            let log = !args.iter().any(|a| a == "--quiet");
+            println!("replaying {} ({} draws) for {} class {}", r.scenario, r.tape.len(), r.property, r.class);
+            let classes = orch::tape_run(&r.scenario, r.tape, log);
+            if classes.iter().any(|c| *c == r.class) {
+                println!("VIOLATION property={} replay={path}", r.property);
+                std::process::exit(1);
+            }
+            println!("not reproduced");
+        }
+        Some("check") => {
+            let id = args.get(2).expect("property id");
+            let tier = arg::<String>(&args, "--tier")
+                .or_else(|| std::env::var("VERIF_TIER").ok())
+                .unwrap_or_else(|| "quick".to_string());
+            let seed: u64 = arg(&args, "--seed")
+                .or_else(|| std::env::var("VERIF_SEED").ok().and_then(|s| s.parse().ok()))
+                .unwrap_or(1);
+            std::process::exit(orch::check(id, &tier, seed));
+        }
         _ => {
-            eprintln!("usage: a10sim run <scenario> [--seed N] [--index N] [--count N] [--log]");
+            eprintln!("usage: a10sim check <Cxx> [--tier quick|thorough] [--seed N] | run <scenario> [--seed N] [--index N] [--count N] [--log] | replay <file>");
             std::process::exit(2);
         }
     }
